@@ -38,7 +38,8 @@ async def iter_sse(response: httpx.Response) -> AsyncIterator[SSEEvent]:
                 if event:
                     yield event
                 event_lines = []
-        else:
+        elif not line.startswith(":"):
+            # Comment lines (keep-alives) are ignored: a block of comments only is not an event
             event_lines.append(line)
     # Last event (if any)
     if event_lines:
